@@ -105,6 +105,9 @@ pub trait Backend: 'static + Send + Sync {
     /// constant-time selection where the configuration has one: `b` if choice else `a`
     fn select(a: &Self::E, b: &Self::E, choice: bool) -> Self::E;
     fn affine_roundtrip(a: &Self::E) -> Self::E;
+    /// the `i`-th operator / method / trait form of the configuration that computes `op`
+    /// (C04's catalogue of forms); a plain fallback when the configuration has none
+    fn op_form(op: crate::props::c04::Op, i: u8, a: &Self::E, b: &Self::E, c: &Self::E) -> Self::E;
     /// internal extended coordinates (X, Y, Z, T) through the read-only hook
     fn coords(e: &Self::E) -> [N; 4];
     fn eq(a: &Self::E, b: &Self::E) -> bool;
@@ -172,6 +175,11 @@ impl Backend for Ark {
         } else {
             *a
         }
+    }
+    fn op_form(op: crate::props::c04::Op, i: u8, a: &Self::E, b: &Self::E, c: &Self::E) -> Self::E {
+        use crate::props::c04::{apply_ark, forms_of};
+        let forms: Vec<_> = forms_of(crate::props::common::Bk::Ark).into_iter().filter(|f| f.op() == op).collect();
+        apply_ark(forms[i as usize % forms.len()], *a, *b, *c)
     }
     fn affine_roundtrip(a: &Self::E) -> Self::E {
         use ark_ec::{AffineRepr, CurveGroup, ScalarMul};
@@ -262,6 +270,19 @@ impl Backend for Min {
             x = min::Element::conditional_select(&x, &(x + min::Element::GENERATOR), Choice::from(1));
         }
         x
+    }
+    fn op_form(op: crate::props::c04::Op, i: u8, a: &Self::E, b: &Self::E, c: &Self::E) -> Self::E {
+        use crate::props::c04::{apply_min, forms_of, Op};
+        let forms: Vec<_> = forms_of(crate::props::common::Bk::Min).into_iter().filter(|f| f.op() == op).collect();
+        if forms.is_empty() {
+            return match op {
+                Op::Sum3 => *a + *b + *c,
+                Op::Sum2 => *a + *b,
+                Op::Sum1 => *a,
+                _ => min::Element::IDENTITY,
+            };
+        }
+        apply_min(forms[i as usize % forms.len()], *a, *b, *c)
     }
     fn affine_roundtrip(a: &Self::E) -> Self::E {
         *a
